@@ -7,7 +7,12 @@ import (
 )
 
 func vjsonScript(tag string) *bscript.Script {
-	switch vnondetLen(tag+"-kind", 0, 2) {
+	switch vnondetLen(tag+"-kind", 0, 2+vparam("INSC", 1)) {
+	case 3: // a P2PKH inscription followed by up to two arbitrary bytes (e.g. a zero-length PUSHDATA)
+		s := append(bscript.Script{}, *vp2pkhScript(tag + "-ipkh")...)
+		s = append(s, 0x00, 0x63, 0x03, 0x6f, 0x72, 0x64, 0x51, 0x01, 0x41, 0x00, 0x01, 0x42, 0x68)
+		s = append(s, vnondetBytes(tag+"-trail", 0, 2)...)
+		return &s
 	case 0:
 		return vp2pkhScript(tag + "-pkh")
 	case 1:
@@ -111,15 +116,18 @@ func VH_C16_OutputUTXO() {
 		vassert(err == nil && u2.Satoshis == u.Satoshis && u2.Vout == u.Vout && vbytesEq(u2.TxID, u.TxID) && vbytesEq(*u2.LockingScript, *u.LockingScript), "C16: utxo library JSON round trip")
 	case 3:
 		u := &UTXO{TxID: vnondetBytes("txid", 32, 32), Vout: vnondetU32("vout"), Satoshis: sats, LockingScript: vjsonScript("lock")}
-		us := UTXOs{u}
+		w := &UTXO{TxID: vnondetBytes("txid2", 32, 32), Vout: vnondetU32("vout2"), Satoshis: vnondetRange("sats2", 0, vMaxSats), LockingScript: vp2pkhScript("lock2")}
+		us := UTXOs{u, w}
 		b, err := json.Marshal(us.NodeJSON())
 		vassert(err == nil, "C16: utxo list marshals (node)")
 		var us2 UTXOs
 		err = json.Unmarshal(b, us2.NodeJSON())
-		vassert(err == nil && len(us2) == 1, "C16: utxo list node JSON unmarshals")
-		if err == nil && len(us2) == 1 {
+		vassert(err == nil && len(us2) == 2, "C16: utxo list node JSON unmarshals")
+		if err == nil && len(us2) == 2 {
 			vassert(us2[0].Vout == u.Vout && vbytesEq(us2[0].TxID, u.TxID) && vbytesEq(*us2[0].LockingScript, *u.LockingScript), "C16: utxo node JSON round trip preserves fields")
+			vassert(us2[1].Vout == w.Vout && vbytesEq(us2[1].TxID, w.TxID) && vbytesEq(*us2[1].LockingScript, *w.LockingScript), "C16: utxo list element 2 preserved")
 			vassert(us2[0].Satoshis == u.Satoshis, "C16: utxo node JSON round trip preserves the amount")
+			vassert(us2[1].Satoshis == w.Satoshis, "C16: utxo list element 2 amount preserved")
 		}
 	}
 	vreach("outputjson-done")
